@@ -74,7 +74,10 @@ def replay(rf, path):
     work = orch.Work()
     work.prepare()
     binary = work.build("./engines/rt", "rt", race=True)
-    o = orch.run_tape(work, binary, rf["property"], rf.get("tier", "quick"), {"seed": rf["seed"], "tape": rf["tape"]}, "replay")
+    if rf.get("history_seeds"):
+        o = orch.run_seeds(work, binary, rf["property"], rf.get("tier", "quick"), rf["history_seeds"], "replay")
+    else:
+        o = orch.run_tape(work, binary, rf["property"], rf.get("tier", "quick"), {"seed": rf["seed"], "tape": rf["tape"]}, "replay")
     if o is None:
         raise orch.Trouble("replay run failed")
     if orch.has(o, rf["rule"], rf["signature"]):
